@@ -88,6 +88,17 @@ static J gen_c01 (uint64_t seed, uint64_t idx)
 	maybe_clipping (g, plan, ops, 0, T) ;
 	J o = mkop ("open") ; o ["mode"] = "r" ; ops.push (o) ;
 	maybe_clipping (g, plan, ops, ops.size () - 1, T) ;
+	if (f.is_float || f.is_double)
+	{	// the portable (bit twiddling) IEEE encoder / decoder the library keeps for hosts without IEEE arithmetic, switched on with
+		// SFC_TEST_IEEE_FLOAT_REPLACE on the writing handle, the reading handle or both: the stored bytes and the values read back
+		// must be the same as with the host's own arithmetic (own stream: the other plans stay what they were)
+		GenCtx gx (sub_seed (seed, "C01x", idx)) ;
+		uint64_t q = gx.rng.below (100) ;
+		size_t ropen = ops.size () - 1 ; while (ropen > 0 && ops [ropen].gets ("op") != "open") ropen -- ;
+		J c = mkop ("cmd") ; c ["id"] = "ieee_replace" ; c ["arg"] = 1 ;
+		if (q < 20 || (q >= 30 && q < 40)) ops.a.insert (ops.a.begin () + (long) (ropen + 1), c) ;
+		if (q >= 20 && q < 40) ops.a.insert (ops.a.begin () + 1, c) ;
+	}
 	int nr = (int) g.rng.range (1, 5) ;
 	int64_t left = N + 3 ;
 	for (int k = 0 ; k < nr && left > 0 ; k++)
@@ -251,6 +262,16 @@ static void gen_reader_history (GenCtx &g, J &ops, const Fmt &f, int ch, int rat
 	}
 }
 
+// a quarter of the files carry a chunk behind the audio (a string set after the last write: WAV LIST, AIFF and CAF text chunks), so that
+// the end of the audio is not the end of the file and the readers' end-of-data handling is what stops a read. Decided from a
+// stream of its own: the other plans stay what they were.
+static void late_string (uint64_t seed, const char *stream, uint64_t idx, J &ops)
+{	GenCtx gx (sub_seed (seed, stream, idx)) ;
+	if (!gx.rng.chance (0.25) || ops.size () == 0 || ops [ops.size () - 1].gets ("op") != "close") return ;
+	J s = mkop ("setstr") ; s ["type"] = (int) gx.rng.pick<int> ({ SF_STR_COMMENT, SF_STR_TITLE, SF_STR_ARTIST }) ; s ["len"] = (long long) gx.rng.range (1, 60) ; s ["stream"] = 7 ;
+	ops.a.insert (ops.a.end () - 1, s) ;
+}
+
 static J gen_c05 (uint64_t seed, uint64_t idx)
 {	const std::vector<Fmt> &fmts = all_formats () ;
 	J plan = plan_skeleton ("C05", seed, idx) ;
@@ -272,6 +293,7 @@ static J gen_c05 (uint64_t seed, uint64_t idx)
 		J w = mkop ("write") ; w ["T"] = "raw" ; w ["n"] = (long long) g.rng.range (1, 300) ;
 		ops.a.insert (ops.a.end () - 1, w) ; N += w.geti ("n") ;
 	}
+	late_string (seed, "C05x", idx, ops) ;
 	J o = mkop ("open") ; o ["mode"] = "r" ; ops.push (o) ;
 	gen_reader_history (g, ops, f, ch, rate, N, (int) g.rng.range (3, 30), false, T, false) ;
 	ops.push (mkop ("close")) ;
@@ -307,7 +329,7 @@ static Verdict check_c05 (const J &plan)
 		{ "read.short_not_eof", "read.short_not_eof" }, { "read.beyond_eof", "read.beyond_eof" }, { "read.eof_zero", "read.eof_zero" },
 		{ "read.eof_error", "read.eof_error" }, { "data.ref", "read.data" },
 		{ "write.range", "write.range" }, { "write.count", "write.count" }, { "write.pos", "write.pos" }, { "write.frames", "write.frames" },
-		{ "write.buffer_modified", "write.buffer_modified" } } ;
+		{ "write.buffer_modified", "write.buffer_modified" }, { "inv#read_current outside [0, frames]", "read.pos" } } ;
 	add_owned (v, "C05", r, owned) ;
 	v.fmt = plan.at ("cfg").gets ("fmt") ; v.route = plan.at ("cfg").gets ("route") ;
 	if (plan.at ("cfg").geti ("benign") && v.findings.empty ())
@@ -344,6 +366,7 @@ static J gen_c06 (uint64_t seed, uint64_t idx)
 	plan ["cfg"]["ref"] = 1 ;
 	J ops = J::arr () ;
 	int64_t N = gen_writer (g, ops, f, ch, rate, route, false, T, false, 0) ;
+	late_string (seed, "C06x", idx, ops) ;
 	J o = mkop ("open") ; o ["mode"] = "r" ; ops.push (o) ;
 	gen_reader_history (g, ops, f, ch, rate, N, (int) g.rng.range (4, 40), true, T, true) ;
 	ops.push (mkop ("close")) ;
@@ -357,7 +380,8 @@ static Verdict check_c06 (const J &plan)
 	Result r = execute (plan) ;
 	v.absorb (r) ;
 	static const std::map<std::string, std::string> owned = {
-		{ "data.ref", "data" }, { "seek.ret", "seek.ret" }, { "seek.pos", "seek.pos" }, { "seek.fail_no_error", "seek.fail_no_error" } } ;
+		{ "data.ref", "data" }, { "seek.ret", "seek.ret" }, { "seek.pos", "seek.pos" }, { "seek.fail_no_error", "seek.fail_no_error" },
+		{ "inv#read_current outside [0, frames]", "seek.pos" } } ;
 	add_owned (v, "C06", r, owned) ;
 	v.fmt = plan.at ("cfg").gets ("fmt") ; v.route = plan.at ("cfg").gets ("route") ;
 	v.shape = plan_shape (plan) ;
